@@ -59,6 +59,15 @@ func (u *Unit) typeName(t types.Type) string {
 func (u *Unit) invoke(st *State, instr ssa.Instruction, cc *ssa.CallCommon, callee Value, args []Value, mode string) []callRes {
 	sig := cc.Signature()
 	u.curInstr = instr
+	u.curArgTypes = nil
+	if cc.IsInvoke() {
+		u.curArgTypes = append(u.curArgTypes, cc.Value.Type())
+	} else if _, isT := callee.(T); isT {
+		u.curArgTypes = append(u.curArgTypes, cc.Value.Type())
+	}
+	for _, a := range cc.Args {
+		u.curArgTypes = append(u.curArgTypes, a.Type())
+	}
 	defer func() { u.curInstr = nil }()
 	if cc.IsInvoke() {
 		name := u.typeName(cc.Value.Type()) + "." + cc.Method.Name()
@@ -214,6 +223,10 @@ func (u *Unit) contractCall(st *State, instr ssa.Instruction, fs *FuncSpec, name
 		}
 	}
 	for _, c := range fs.Requires {
+		if lname, base, mode, ok := u.lockedExpr(env, c); ok {
+			u.addOblig(st, site+".pre.locked."+lname, c.Text, u.propsFor("C03"), u.heldGoal(st, lname, base, mode == 2), instr, "callee "+name+" requires the caller to hold "+lname)
+			continue
+		}
 		g := u.evalBool(env, c.Expr)
 		u.addOblig(st, site+".pre."+labelOr(c, "requires"), c.Text, clauseProps(c, fs), g, instr, "precondition of "+name+": "+c.Text)
 		st.assume(g)
@@ -258,6 +271,9 @@ func (u *Unit) contractCall(st *State, instr ssa.Instruction, fs *FuncSpec, name
 		env2.names[k] = x
 	}
 	env2.old = pre
+	if fs.Kind == "func" {
+		env2.calleeFn = u.eng.funcByName(u.pkg, fs.Name)
+	}
 	rs := sig.Results()
 	for i, rv := range vals {
 		if len(vals) == 1 {
@@ -521,6 +537,9 @@ func (u *Unit) event(st *State, name string, args []Value) []string {
 		}
 		st.cnt[cn] = Add(cur, IntLit(1))
 		st.lastArgs[ev.Name] = args
+		if len(u.curArgTypes) == len(args) {
+			u.lastArgTypes[ev.Name] = u.curArgTypes
+		}
 		matched = append(matched, ev.Name)
 	}
 	return matched
@@ -546,6 +565,9 @@ func eventMatches(pattern, name string) bool {
 // ------------------------------------------------------------ builtins
 
 func (u *Unit) builtin(st *State, instr ssa.Instruction, b *ssa.Builtin, cc *ssa.CallCommon, args []Value) []callRes {
+	if b.Name() == "close" {
+		u.checkAt(st, instr, "call:builtin.close")
+	}
 	switch b.Name() {
 	case "ssa:deferstack":
 		return one(st, IntLit(0))
@@ -666,6 +688,7 @@ func (u *Unit) appendOp(st *State, instr ssa.Instruction, cc *ssa.CallCommon, ar
 	u.heapSet(st, "alloc", Ite(fits, al, Store(al, freshArr, True)))
 	newCap := u.fresh("cap.append", SInt)
 	st.assume(Le(newLen, newCap))
+	st.assume(Le(newCap, T{"4611686018427387904", SInt}))
 	name := func(t T, hint string) T {
 		if !strings.HasPrefix(t.S, "(") {
 			return t
@@ -929,7 +952,93 @@ func (u *Unit) onClose(st *State, instr ssa.Instruction, ch T) {
 
 func (u *Unit) onRecvClosed(st *State, ch T) {
 	st.assume(app(SBool, "chanClosed", ch))
+	fs := u.specOfFrame(st)
+	if fs == nil {
+		return
+	}
+	for _, c := range fs.ChanInvs {
+		cell, ok := st.frame.named[c.Mark]
+		if !ok {
+			continue
+		}
+		cur, ok := st.cells[cell].(T)
+		if !ok || cur.S != ch.S {
+			continue
+		}
+		// one-shot channel: a receive succeeds only after close(ch); the
+		// closer asserted the invariant (checked: chaninv.closers)
+		env := u.newEnv(st)
+		st.assume(u.evalBool(env, c.Expr))
+		u.note("one-shot channel " + c.Mark + ": a receive that succeeds happens after close (M4-style happens-before of channel close)")
+	}
 }
+
+// checkChanInvClosers: every literal that closes a channel with a declared
+// invariant asserts that invariant at the close.
+func (u *Unit) checkChanInvClosers(st *State) {
+	if u.fs == nil {
+		return
+	}
+	for _, c := range u.fs.ChanInvs {
+		ok := true
+		why := ""
+		closers := 0
+		for _, b := range u.fn.Blocks {
+			for _, in := range b.Instrs {
+				mc, isMC := in.(*ssa.MakeClosure)
+				if !isMC {
+					continue
+				}
+				lit := mc.Fn.(*ssa.Function)
+				closes := false
+				for _, lb := range lit.Blocks {
+					for _, li := range lb.Instrs {
+						if call, isCall := li.(*ssa.Call); isCall {
+							if bi, isB := call.Call.Value.(*ssa.Builtin); isB && bi.Name() == "close" {
+								closes = true
+							}
+						}
+					}
+				}
+				if !closes {
+					continue
+				}
+				closers++
+				lfs := u.eng.spec.Funcs[relName(lit)]
+				found := false
+				if lfs != nil {
+					for _, a := range lfs.Asserts {
+						if a.Mark == "call:builtin.close" && normSpace(a.Text) == normSpace(c.Text) {
+							found = true
+						}
+					}
+				}
+				if !found {
+					ok = false
+					why += " " + relName(lit)
+				}
+			}
+		}
+		// closing in the function itself is not supported
+		for _, b := range u.fn.Blocks {
+			for _, in := range b.Instrs {
+				if call, isCall := in.(*ssa.Call); isCall {
+					if bi, isB := call.Call.Value.(*ssa.Builtin); isB && bi.Name() == "close" {
+						ok = false
+						why += " (closed in the function itself)"
+					}
+				}
+			}
+		}
+		goal := True
+		if !ok || closers == 0 {
+			goal = False
+		}
+		u.addOblig(st, "chaninv."+c.Mark+".closers", c.Text, c.Props, goal, nil, "every literal that closes channel "+c.Mark+" asserts its invariant at the close ("+c.Text+"):"+why)
+	}
+}
+
+func normSpace(s string) string { return strings.Join(strings.Fields(s), " ") }
 
 // ------------------------------------------------------- obligations
 
